@@ -212,31 +212,21 @@ NOTES = ('All checks are static (family: static analysis); they parse /repo on e
          'Exit 2 + ANALYSIS-ERROR means an anchor vanished or the analyser failed -- not a verdict. '
          'known_findings.json lists genuine defects recorded rather than repaired, keyed by rule/function/construct.')
 
-# Rules added after the first build (DESIGN.md section 8): one sentence each, appended to the claim text.
+# Rules added after the first build (DESIGN.md section 8): appended to the claim text.
 MORE = {
-    'C01': 'R01.4 differ and patcher split lines with the same primitive; R01.5 the codec/escaping nbdiff --out writes the diff file with is one nbpatch decodes identically under every locale.',
-    'C02': 'R02.5 no dict/set lookup on the diff path is keyed by document items; R02.6 one line-splitting primitive at every line-key site.',
-    'C03': 'R03.7 index algebra of the concurrent-insert splitter is consistent across arms; R03.8 constant indices into possibly empty line lists are guarded (loop variables over such lists included); '
-           'R03.9 the per-field dispatch for merged similar inserts covers every cell field of the schema; R03.10 a base container is indexed with a diff/decision key only with evidence that the key exists '
-           '(bound test, patch/remove chunk type, or a strategy that the table attaches to schema-required fields only); R03.11 no raise/assert is reachable for a text-merge exit status in 0..127.',
-    'C04': 'R04.4 take_max reads each side\'s own value and the maximum ranges over base, local and remote.',
-    'C05': 'R05.4 adjacent assignments to a local/remote pair of names are mirror images of each other (48 pairs).',
-    'C07': 'R07.5 the merged text is the tool\'s stdout only (stderr is not redirected into it).',
-    'C08': 'R08.6 log records never go to stdout; R08.7 an unreadable input is replaced by an empty notebook only behind a pure emptiness test.',
-    'C09': 'R09.5 cursor algebra of _split_addrange; R09.6 two-sided decisions carry both diffs; R09.7 no truthiness test of a diff key / path element; R09.8 entries re-sorted by key alone were appended one by one '
-           '(stable order at equal keys); R09.9 no ==/!= between base, local and remote decides "unchanged"; R09.10 the mergers only add decisions.',
-    'C10': 'R10.4 conflicted decisions created by the mergers carry no strategy tag; R10.5 no use-* arm precedes an arm that settles a non-conflict; R10.6 every *strategy variable of the mergers is a lookup of its own path in the strategy table.',
-    'C11': 'R11.5/R11.6 nested patches are keyed by the base index / the iteration key itself; R11.7 no truthiness test of a diff key; R11.9 add vs replace of one key is decided by membership; '
-           'R11.2 covers every wrapping of a decision diff into patch entries (op_patch or push_path) behind a truthiness test of that diff.',
+    'C01': 'R01.4 differ and patcher split lines with the same primitive; R01.5 the codec/escaping nbdiff --out writes the diff file with is one nbpatch decodes identically under every locale. R01.6 the C12 effect analysis re-run (no module-level state written on the diff path); R01.7 call-signature compatibility, R01.8 name binding (undefined names, definite assignment), R01.9 op-guarded field reads of diff entries; R01.10 alignment predicates are reflexive (symbolic folding under y := x); R01.11 head/tail trimming scans do not overlap.',
+    'C02': 'R02.5 no dict/set lookup on the diff path is keyed by document items; R02.6 one line-splitting primitive at every line-key site. R02.7 call signatures, R02.8 name binding, R02.9 op-guarded field reads; R02.10 the predicate/differ tables consulted by membership never insert on lookup; R02.11 head/tail trimming scans do not overlap.',
+    'C03': 'R03.7 index algebra of the concurrent-insert splitter is consistent across arms; R03.8 constant indices into possibly empty line lists are guarded (loop variables over such lists included); R03.9 the per-field dispatch for merged similar inserts covers every cell field of the schema; R03.10 a base container is indexed with a diff/decision key only with evidence that the key exists (bound test, patch/remove chunk type, or a strategy that the table attaches to schema-required fields only); R03.11 no raise/assert is reachable for a text-merge exit status in 0..127. R03.12 call signatures, R03.13 name binding, R03.14 op-guarded field reads; R03.15 sort-key tuples start with a string in every branch; R03.16 section boundaries agree with the consumed-symbol table; R03.17 unguarded field lookups of similar inserts only for fields present in every minor; R03.18 resolver asserts only behind the path filter; R03.19 diff collectors treat None as empty; R03.20 no guard compares a variable with its own defining expression.',
+    'C04': "R04.4 take_max reads each side's own value and the maximum ranges over base, local and remote. R04.5 values written by strategies with add/replace are a side's own value, the text-merge result or go under a constant schema-checked key; R04.6 no strategy arm before a non-conflict arm; R04.7 no tautological guard (dead patch-level adjustment).", 'C05': 'R05.4 adjacent assignments to a local/remote pair of names are mirror images of each other (48 pairs). R05.5 role-ordered diffs are re-sorted by key before application; R05.6 agreement between the sides is decided by a type-strict comparison.',
+    'C07': "R07.5 the merged text is the tool's stdout only (stderr is not redirected into it). R07.6 cursor algebra of the insert splitter; R07.7 no similarity predicate is called from the merge package; R07.8 one line model at every Python line-key site; R07.9 trimming scans do not overlap.", 'C08': 'R08.6 log records never go to stdout; R08.7 an unreadable input is replaced by an empty notebook only behind a pure emptiness test. R08.8 call signatures, R08.9 name binding on the command path.',
+    'C09': 'R09.5 cursor algebra of _split_addrange; R09.6 two-sided decisions carry both diffs; R09.7 no truthiness test of a diff key / path element; R09.8 entries re-sorted by key alone were appended one by one (stable order at equal keys); R09.9 no ==/!= between base, local and remote decides "unchanged"; R09.10 the mergers only add decisions. R09.11 local/remote diff arguments of every decision-builder call are mirror images (one expression for both only in the insert aligner); R09.12 merge_notebooks returns apply_decisions\' result unmodified; R09.13 type-strict agreement.',
+    'C10': 'R10.4 conflicted decisions created by the mergers carry no strategy tag; R10.5 no use-* arm precedes an arm that settles a non-conflict; R10.6 every *strategy variable of the mergers is a lookup of its own path in the strategy table. R10.7 each field of the strategy table is derived from the option that governs it (source, attachments <- input; outputs <- output; metadata <- merge strategy).',
+    'C11': 'R11.5/R11.6 nested patches are keyed by the base index / the iteration key itself; R11.7 no truthiness test of a diff key; R11.9 add vs replace of one key is decided by membership; R11.2 covers every wrapping of a decision diff into patch entries (op_patch or push_path) behind a truthiness test of that diff.',
     'C12': 'R12.1 also covers `global` rebinding of non-container module names on the path; R12.6 value-equality classes used as cache keys compare every field their behaviour reads.',
-    'C13': 'R13.3 values reached through diff-entry fields are input data wherever found; summaries distinguish top-level from deep mutation, so a callee that modifies ELEMENTS is charged to callers passing a fresh list of caller-owned entries; '
-           'private helpers whose every call site passes fresh objects are exempt from the input-data assumption.',
-    'C14': 'R14.5 every whole-path ignore is consulted by the parent differ for every JSON type the schema admits there (three-valued evaluation of the lookup guard, atomic_paths included); R14.6 key filters stack (the filter calls the differ it was given).',
-    'C15': 'R15.5 TS makeClearedValue and Python make_cleared_value map each of the six JSON kinds to the same result kind (both chains evaluated exhaustively with their language\'s typing rules); R15.6 Python re-sorts entries by key alone, like the TS side.',
-    'C16': 'R16.5 no truthiness test of a line number / path element; R16.6 no class-level container written by renderer methods; R16.7 regexes stripping tool chatter are anchored at line start (re.M + ^, pattern parsed).',
-    'C17': 'R17.5 the sub-directory prefix is assembled in root-to-leaf order.',
-    'C18': 'R18.6 a config subcommand never turns "already absent" into a non-zero status that would stop the config-git chain.',
-    'C19': 'R19.3 additionally: the disk section is layered inside the MRO loop and not inside a loop over files; no directory of the search path can be skipped inside the reversed walk.',
-    'C20': 'R20.7 the store request is parsed before the output is opened; R20.8 start-up streams are rewound before each read; R20.9 handler methods store nothing in settings/params shared between requests (one named exemption); '
-           'R20.10 a non-JSON file counts as an empty notebook only behind a pure emptiness test.',
+    'C13': 'R13.3 values reached through diff-entry fields are input data wherever found; summaries distinguish top-level from deep mutation, so a callee that modifies ELEMENTS is charged to callers passing a fresh list of caller-owned entries; private helpers whose every call site passes fresh objects are exempt from the input-data assumption.',
+    'C14': "R14.5 every whole-path ignore is consulted by the parent differ for every JSON type the schema admits there (three-valued evaluation of the lookup guard, atomic_paths included); R14.6 key filters stack (the filter calls the differ it was given). R14.7 no entry for a common key is emitted past the differ table; R14.8 no ValueError other than 'unknown program' on the configuration path (the parser swallows it); R14.9 alignment predicates are reflexive.", 'C15': "R15.5 TS makeClearedValue and Python make_cleared_value map each of the six JSON kinds to the same result kind (both chains evaluated exhaustively with their language's typing rules); R15.6 Python re-sorts entries by key alone, like the TS side. R15.7 both implementations apply decisions to a deep copy of base.", 'C16': 'R16.5 no truthiness test of a line number / path element; R16.6 no class-level container written by renderer methods; R16.7 regexes stripping tool chatter are anchored at line start (re.M + ^, pattern parsed). R16.8 call signatures, R16.9 name binding, R16.10 op-guarded field reads in the renderer; R16.11 lexer name only from string-typed metadata fields; R16.12 every raising stream error handler is replaced by an escaping one.',
+    'C17': 'R17.5 the sub-directory prefix is assembled in root-to-leaf order. R17.6 call signatures, R17.7 name binding; R17.8 the working-tree open catches OSError (not a subclass); R17.9 every entry gets a stream object of its own.',
+    'C18': 'R18.6 a config subcommand never turns "already absent" into a non-zero status that would stop the config-git chain. R18.7 call signatures, R18.8 name binding; R18.9 empty XDG_CONFIG_HOME counts as unset; R18.10 no module-level container is extended in place by the git integration.',
+    'C19': 'R19.3 additionally: the disk section is layered inside the MRO loop and not inside a loop over files; no directory of the search path can be skipped inside the reversed walk. R19.6 call signatures, R19.7 name binding; R19.8 no swallowed ValueError on the configuration path; R19.9 a section class re-declares an inherited option only with a non-None default.',
+    'C20': 'R20.7 the store request is parsed before the output is opened; R20.8 start-up streams are rewound before each read; R20.9 handler methods store nothing in settings/params shared between requests (one named exemption); R20.10 a non-JSON file counts as an empty notebook only behind a pure emptiness test. R20.3 also scans tornado lifecycle hooks (on_finish ...); R20.11 call signatures, R20.12 name binding.',
 }
